@@ -22,6 +22,10 @@ directly in the nested-integer format read by harness/hx-policy:
           [5,name,stmts] [6,name,preserve,all,stmts] [7,set,dir,default,policies] [8,dir,names,all]
           [9,dir,source,nlri,attrs,nh,orig_nh,is_confed,local_ip,peer_ip] (dir 0 import 1 export) [10] dump
           [11,[[ip,mask,max_length,asn]..]] install an RpkiTable with these VRPs (evaluation has rpki=Some from now on)
+          Global-level cases ('kind': 'global', harness/daemon/event_policy_hx.rs): ops 1..8 plus
+          [20,peer,[]|[[default,[policy..]]]] add_peer  [21,peer,dir,default,[policy..]] per-peer add assignment
+          [22,peer,dir,[policy..],all] per-peer delete assignment  [23,peer,source,nlri,attrs,nh,orig_nh,is_confed,local_ip,peer_ip] evaluate
+          with the peer's effective export policy  [24] dump
           [12,nlri,asn] probe RpkiTable::validate for (prefix, origin AS): [] (None) | [state] | [-2] (no table)
 """
 import json, re, itertools
@@ -231,6 +235,22 @@ def c_op(op):
     if t == 12: return '(OProbe %s %s)' % (c_nlri(op[1]), cN(op[2]))
     return 'ODump'
 
+def c_gop(op):
+    t = op[0]
+    if t <= 8: return '(GOp %s)' % c_op(op)
+    if t == 20: return '(GAddPeer %s %s)' % (cN(op[1]), copt('(%s, %s)' % (c_disp(op[2][0][0]), c_names(op[2][0][1]))) if op[2] else 'None')
+    if t == 21: return '(GPeerAddAsg %s %s %s %s)' % (cN(op[1]), cbool(op[2] == 0), c_disp(op[3]), c_names(op[4]))
+    if t == 22: return '(GPeerDelAsg %s %s %s %s)' % (cN(op[1]), cbool(op[2] == 0), c_names(op[3]), cbool(op[4]))
+    if t == 23:
+        return ('(GPeerEval %s {| ro_src := %s; ro_net := %s; ro_attrs := %s; ro_nh := %s; ro_orig := %s; '
+                'ro_confed := %s; ro_local := %s; ro_peer := %s |})') % (
+            cN(op[1]), c_src(op[2]), c_nlri(op[3]), c_attrs(op[4]), c_nh(op[5]), c_nh(op[6]), cbool(op[7]), c_ip(op[8]), c_ip(op[9]))
+    return 'GDump'
+
+def as_eval_ops(ops):
+    """Global-level ops seen as table-level ops for the universe / table computations (23 -> 9)"""
+    return [([9, 1] + op[2:]) if op[0] == 23 else op for op in ops]
+
 # ---------------------------------------------------------------- regex tables for a case
 def case_universe(ops):
     comm, ext, large = set(), set(), set()
@@ -368,11 +388,13 @@ class Ref:
         self.stmts = {}    # name -> dict(conds, disp, act)
         self.pols = {}     # name -> [stmt names]
         self.asg = {}      # dir -> (default, [policy names])
+        self.peers = {}    # peer -> None | (default, [policy names])   (Global-level cases)
 
     # ---- who references what
     def set_users(self, k, n): return [s for s, st in self.stmts.items() if any(c[0] == k and c[1] == n for c in st['conds'] if c[0] < 6)]
     def stmt_users(self, n): return [p for p, ss in self.pols.items() if n in ss]
-    def pol_users(self, n): return [d for d, (_, ps) in self.asg.items() if n in ps]
+    def pol_users(self, n):
+        return [d for d, (_, ps) in self.asg.items() if n in ps] + ['peer%d' % p for p, a in self.peers.items() if a and n in a[1]]
 
     @staticmethod
     def parse_entries(kind, ents):
@@ -511,6 +533,19 @@ class Ref:
             old = self.asg.get(d)
             self.asg[d] = (op[3], list(op[4]) + (old[1] if (old and not op[1]) else []))
             return None
+        if t == 20:
+            if code == 0: self.peers[op[1]] = (min(op[2][0][0], 2), list(op[2][0][1])) if op[2] else None
+            return None
+        if t == 21:
+            if code != 0: return None
+            old = self.peers.get(op[1])
+            self.peers[op[1]] = (1 if op[3] == 1 else 2, list(op[4]) + (old[1] if old else []))
+            return None
+        if t == 22:
+            if code != 0: return None
+            if op[4]: self.peers[op[1]] = None
+            elif self.peers.get(op[1]): self.peers[op[1]] = (self.peers[op[1]][0], [p for p in self.peers[op[1]][1] if p not in op[3]])
+            return None
         if t == 8:
             if code != 0: return None
             d = op[1]
@@ -520,10 +555,10 @@ class Ref:
         return None
 
     # ---- evaluation
-    def flat_statements(self, d):
+    def flat_statements(self, d, pols=None):
         """the assignment's statements in order, with their sets resolved by name; None if dangling"""
         out = []
-        for p in self.asg[d][1]:
+        for p in (self.asg[d][1] if pols is None else pols):
             if p not in self.pols: return None
             for s in self.pols[p]:
                 if s not in self.stmts: return None
@@ -659,8 +694,14 @@ def ref_actions(act, x, attrs, nh):
 def ref_eval(ref, op, rpki=None):
     """reference result of an Eval op: (first element, attrs, nh) or a string for 'no verdict'"""
     d = op[1]
-    if d not in ref.asg: return ('none',)
-    stmts = ref.flat_statements(d)
+    if op[0] == 23:
+        a = ref.peers.get(op[1]) or ref.asg.get(1)
+        if a is None: return ('none',)
+        op = [9, 1] + op[2:]; d = 1
+        dflt, stmts = a[0], ref.flat_statements(1, a[1])
+    else:
+        if d not in ref.asg: return ('none',)
+        dflt, stmts = ref.asg[d][0], ref.flat_statements(d)
     if stmts is None: return ('dangling',)
     attrs = [a for a in (attr_in(a) for a in op[4]) if a is not None]
     nh = op[5]
@@ -677,7 +718,7 @@ def ref_eval(ref, op, rpki=None):
             if dd != 0:
                 disp = dd
                 break
-    if disp is None: disp = min(ref.asg[d][0], 2)
+    if disp is None: disp = min(dflt, 2)
     first = (1 if disp == 2 else 0) if d == 0 else disp
     return ('ok', [first, [attr_out(a) for a in attrs], nh])
 
@@ -736,6 +777,11 @@ class Prop:
     # ---- rendering
     def case_to_val(self, c): return c['ops']
     def case_to_coq(self, c):
+        if c.get('kind') == 'global':
+            eo = as_eval_ops(c['ops'])
+            tc, te, tl = rx_tables(eo)
+            return 'grun_case %s %s %s %s %s' % (c_table(tc), c_table(te), c_table(tl), c_str_table(aspath_table(eo)),
+                                                clist([c_gop(o) for o in c['ops']]))
         tc, te, tl = rx_tables(c['ops'])
         return 'run_case %s %s %s %s %s %s' % (c_table(tc), c_table(te), c_table(tl), c_str_table(aspath_table(c['ops'])),
                                              c_probe_table(c.get('_tv', {})), clist([c_op(o) for o in c['ops']]))
@@ -745,8 +791,14 @@ class Prop:
     # ---- running
     def run_impl(self, cases, tier):
         out = [None] * len(cases)
+        gidx = [i for i, c in enumerate(cases) if c.get('kind') == 'global']
+        if gidx:
+            obs, err = rustrun.daemon_test('C14_global', 'event::verif_hx::c14::verif_policy_cases',
+                                           [self.case_to_val(cases[i]) for i in gidx])
+            if obs is None: return None, err
+            for i, o in zip(gidx, obs): out[i] = o
         for prof in ('debug', 'release'):
-            idx = [i for i, c in enumerate(cases) if c.get('profile', 'debug') == prof]
+            idx = [i for i, c in enumerate(cases) if c.get('profile', 'debug') == prof and c.get('kind') != 'global']
             if not idx: continue
             obs, err = rustrun.crate_bin('C14_' + prof, 'hx-policy', '', [self.case_to_val(cases[i]) for i in idx],
                                          release=(prof == 'release'))
@@ -757,7 +809,7 @@ class Prop:
         return out, ''
 
     def run_model(self, cases, tier):
-        pre = 'From RB Require Import Base.Val Model.Policy Model.PolicyTable.\nOpen Scope N_scope.'
+        pre = 'From RB Require Import Base.Val Model.Policy Model.PolicyTable Model.PolicyGlobal.\nOpen Scope N_scope.'
         return coqrun.eval_terms('C14', pre, [self.case_to_coq(c) for c in cases])
 
     def canon(self, case, obs):
@@ -765,9 +817,11 @@ class Prop:
         if not isinstance(obs, list): return obs
         out = []
         for op, o in zip(case['ops'], obs):
-            if op[0] == 10 and isinstance(o, list) and len(o) == 5:
+            def cd(o):
                 sets = sorted([[s[0], s[1], ([sorted(s[2][0])] + s[2][1:]) if s[0] == 0 else s[2]] for s in o[0]])
-                o = [sets, sorted(o[1]), sorted(o[2]), o[3], o[4]]
+                return [sets, sorted(o[1]), sorted(o[2]), o[3], o[4]]
+            if op[0] == 10 and isinstance(o, list) and len(o) == 5: o = cd(o)
+            if op[0] == 24 and isinstance(o, list) and len(o) == 4: o = [cd(o[0]), sorted(o[1]), o[2], o[3]]
             out.append(o)
         return out + obs[len(out):]
 
@@ -785,7 +839,7 @@ class Prop:
             if op[0] == 12:
                 if o == [-1]: return 'op %d: RpkiTable::validate panicked' % k
                 continue
-            if op[0] == 9:
+            if op[0] in (9, 23):
                 cls = eval_classes(ref, op)
                 tag = ''.join(' [class:%s]' % t for t in sorted(cls))
                 if o == [-1]:
@@ -800,6 +854,20 @@ class Prop:
                     what = 'verdict' if o[0] != r[1][0] else 'attributes' if o[1] != r[1][1] else 'next hop'
                     return 'op %d: %s differs from the reference semantics (got %s, want %s)%s' % (
                         k, what, json.dumps(o)[:160], json.dumps(r[1])[:160], tag)
+            elif op[0] == 24:
+                if o == [-1]: return None
+                for pid, a in o[1]:
+                    for x in a:
+                        for pp in x[1]:
+                            if pp[1] != 1: return 'op %d: peer %d holds a stale copy of policy %d' % (k, pid, pp[0])
+                if o[2] != 1 or o[3] != 1: return 'op %d: the policy slot the sessions read is not the table\'s assignment' % k
+                o = o[0]
+                for p in o[2]:
+                    for st in p[1]:
+                        if st[1] != 1: return 'op %d: policy %d holds a stale copy of statement %d' % (k, p[0], st[0])
+                for st in o[1]:
+                    for cd in st[1]:
+                        if len(cd) == 4 and cd[3] != 1: return 'op %d: statement %d holds a stale copy of set %d/%d' % (k, st[0], cd[0], cd[1])
             elif op[0] == 10:
                 if o == [-1]: return None
                 # every reference must be the object the table lists under that name
@@ -828,12 +896,12 @@ class Prop:
         nontrivial = False
         ref_has = False
         for op, o in zip(c['ops'], obs):
-            if op[0] == 9:
+            if op[0] in (9, 23):
                 if o not in ([-1], [-2]):
                     sig.append((op[1], o[0], tuple(a[1] for a in o[1]), len(o[2])))
                     nontrivial = nontrivial or ref_has
                 else: sig.append(tuple(o))
-            elif op[0] in (10, 11, 12): continue
+            elif op[0] in (10, 11, 12, 24): continue
             else:
                 sig.append((op[0], tuple(o)))
                 if op[0] == 3 and o == [0]:
@@ -846,7 +914,7 @@ class Prop:
         n = len(c['ops'])
         tags.append('ops_%s' % ('1-6' if n <= 6 else '7-12' if n <= 12 else '13+'))
         if isinstance(obs, list):
-            codes = [o[0] for op, o in zip(c['ops'], obs) if op[0] not in (9, 10, 11, 12) and o != [-1]]
+            codes = [o[0] for op, o in zip(c['ops'], obs) if op[0] not in (9, 10, 11, 12, 23, 24) and o != [-1]]
             for op, o in zip(c['ops'], obs):
                 if op[0] == 12 and o != [-2]: tags.append('rpki_probe_%s' % (o[0] if o else 'none'))
             for code, nm in ((1, 'err_invalid'), (2, 'err_in_use'), (3, 'err_not_found')):
